@@ -12,12 +12,13 @@ def run(r):
         fams = [("CAT", 3, AB, 1, [0], {}), ("F2", 3, AB, 8, list(range(8)), {}), ("OPT", 3, AB, 1, [0], {}),
                 ("NM", 3, AB, 8, [(s + i) % 8 for i in range(3)], {}), ("HID2", 3, [97, 98, 99, 100], 12, [(s + i) % 12 for i in range(2)], {}),
                 ("TSH", 4, ABS, 1, [0], {}), ("LRF", 3, AB, 4, [s % 4], {"wrap": "all"}),
-                ("F1", 3, AB, 16, [(s + i) % 16 for i in range(4)], {})]
+                ("F1", 3, AB, 16, [(s + i) % 16 for i in range(4)], {}), ("SNG", 4, AB, 1, [0], {})]
         rnd = [(500, dict(maxlen=5, share=1, named=0, watch=1)), (200, dict(maxlen=6, share=1, named=2, watch=1, seed_off=1)),
                (600, dict(tmpl="share", named=0, watch=1, seed_off=5))]
     else:
         fams = [("CAT", 3, AB, 1, [0], {}), ("F2", 3, AB, 12, [s % 12], {}), ("OPT", 3, AB, 4, [(s + 1) % 4], {}),
-                ("TSH", 3, ABS, 1, [0], {}), ("NM", 3, AB, 24, [(s + 2) % 24], {}), ("F1", 3, AB, 48, [(s + 30) % 48], {})]
+                ("TSH", 3, ABS, 1, [0], {}), ("NM", 3, AB, 24, [(s + 2) % 24], {}), ("F1", 3, AB, 48, [(s + 30) % 48], {}),
+                ("SNG", 3, AB, 2, [s % 2], {})]
         rnd = [(100, dict(maxlen=5, share=1, named=0, watch=1)), (120, dict(tmpl="share", named=0, watch=1, seed_off=5))]
     parsefam.run_plan(r, {"props": ["C07"], "families": fams, "random": rnd, "watch": True})
     r.rule = ("the harness keeps a reference to everything any parser (probe) has returned, with its rendering (token, value, children recursively, start, "
